@@ -38,7 +38,10 @@ EXTENDS UFLBuild
 CONSTANTS
   RealTermNames,  \* names of the terminals of a kind CheckComparisons.terminal types real
                   \* (Argument, GeometricQuantity); every other terminal is a Coefficient/Constant
-  PowLitOnly      \* TRUE: the exponent of a scalar power is a literal (see c23.py: slices)
+  PowLitOnly,     \* TRUE: the exponent of a scalar power is a literal (see c23.py: slices)
+  CondRule        \* "all": a conditional is typed by expr(), i.e. by its condition and both values (the code);
+                  \* "true": by its true value only -- an UNSOUND lattice, used by the self-test of the
+                  \* harness, which requires TLC to refute it (TypeSound / CheckSound)
 
 ModeOps  == {"cmp_check", "remove_complex"}
 OrderOps == {"lt", "gt", "le", "ge"}
@@ -87,7 +90,8 @@ TypeOf(n) == LET x == store[n] IN
     [] x.op \in {"mul", "dot", "inner", "outer"} ->                                  \* expr() (on IndexSum when an index repeats)
          IF MulRep(store[x.args[1]], store[x.args[2]]) # {} THEN "complex" ELSE Prop(x.args)
     [] x.op = "variable" -> "complex"                                                \* expr() with a Label operand
-    [] x.op \in {"add", "sub", "neg", "div", "conj", "eq", "ne", "and", "or", "not", "cond", "sign"} -> Prop(x.args)   \* expr()
+    [] x.op = "cond" -> IF CondRule = "true" THEN Prop(<<x.args[2]>>) ELSE Prop(x.args)      \* expr(): condition, true and false value
+    [] x.op \in {"add", "sub", "neg", "div", "conj", "eq", "ne", "and", "or", "not", "sign"} -> Prop(x.args)   \* expr()
 
 (* Part 1b.  The verdict of do_comparison_check, as coded: compare() / max_value() /        *)
 (* min_value() raise when one of the operands is typed "complex".                            *)
